@@ -274,10 +274,38 @@ def run(ctx) -> None:
     # overlap predicate
     if ho is not None:
         overlap_predicate_rule(ctx, ho)
+    every_file_rule(ctx, "R2")
 
     # ---------------------------------------------------------------- R4 (placeholder expansion)
     placeholder_rules(ctx)
     return
+
+
+def every_file_rule(ctx, rule: str) -> None:
+    """<eng>.iter_rewritten hands on a record for every configured file: in the loop over the configured files no path leads
+    from the start of an iteration to the next one (or to the end) without passing the `yield` - no `continue`, no skipped
+    file.  (A file whose patterns happen to render the same text for the old and the new version may still be out of date.)"""
+    prog, cfgs = ctx.prog, ctx.cfgs
+    n_loops = 0
+    for eng in ("v2rewrite", "v1rewrite"):
+        it = prog.function(f"{eng}.iter_rewritten")
+        ctx.visit(it.fq)
+        cfg = cfgs.get(it.fq)
+        ynodes = {cfg.node_containing(y) for y in ast.walk(it.node) if isinstance(y, (ast.Yield, ast.YieldFrom))}
+        for n in cfg.nodes:
+            if n.kind != "iter" or n.id not in cfg.reachable():
+                continue
+            body_entries = [dst for dst, label in cfg.succ[n.id] if label == ("iter", "next")]
+            if not body_entries:
+                continue
+            n_loops += 1
+            skipping = any(n.id in cfg.reachable(start=b, blocked_nodes=ynodes, skip_exc=True) or cfg.exit in cfg.reachable(start=b, blocked_nodes=ynodes | {n.id}, skip_exc=True)
+                           for b in body_entries if b not in ynodes)
+            ctx.check(rule, not skipping, f"{it.fq}: every iteration over the configured files yields its record",
+                      f"{it.fq}: a configured file can be skipped by the rewrite", "an iteration of the loop over the configured files can end without a `yield`: that file is not rewritten although "
+                      "its patterns match (a partial pattern such as a copyright year in a file that is already out of date stays stale on every update)", loc=it.loc(n.ast),
+                      witness={"file_patterns": {"LICENSE": ["Copyright (c) 2018-YYYY"]}})
+    ctx.floor(rule, "loops over the configured files in iter_rewritten", n_loops, 2)
 
 
 def overlap_predicate_rule(ctx, ho) -> None:
